@@ -15,6 +15,9 @@ open Units Infer Convert Sem PMap
 
 variable {K : Type} [Field K] [LinearOrder K] [IsStrictOrderedRing K]
 
+/-- registry with `mV = 10⁻³ volt` on top of the built-in units -/
+def regMV : Registry := ("mV", .derived (pow10 (-3)) [("volt", 1)]) :: builtinRegistry
+
 /-! ## 1. `maybe_convert_expr` -/
 
 /-- what `maybe_convert_expr` can return -/
@@ -519,6 +522,28 @@ def dimlessClass (reg : Registry) : UClass reg where
   pow := by intro a q ha; subst ha; rfl
   faithful := by intro a b ha hb _; subst ha; subst hb; exact Cellml.Props.C07.equiv_refl reg []
 
+/-- a non-degenerate instance: in the built-in registry (and `regMV`) the dimensioned root units have pairwise
+    different dimensions, so `dimClass` — all units none of whose root units is dimensionless — is a `UClass` -/
+theorem builtin_dimsDistinct : dimsDistinct builtinRegistry = true := by decide +kernel
+theorem regMV_dimsDistinct : dimsDistinct regMV = true := by decide +kernel
+
+/-- executable form of the hypothesis on the environment -/
+theorem env_rootsDim {reg : Registry} {Γ : VarEnv} (h : Γ.all (fun vi => rootsDimB reg vi.unit) = true) :
+    ∀ (i : Nat) (vi : VarInfo), Γ[i]? = some vi → RootsDim reg vi.unit := by
+  intro i vi hi
+  have hm : vi ∈ Γ := List.mem_of_getElem? hi
+  exact rootsDim_of_test (List.all_eq_true.mp h vi hm)
+
+/-- (b) instantiated on real units: `x [mV] + y [V]` (first-operand rule, a real conversion of `y`), any target among
+    units with dimensioned roots -/
+example {tgt : Option Container} (ht : ∀ t, tgt = some t → RootsDim regMV t) {r : CR}
+    (h : convert regMV [⟨[("mV", 1)], none⟩, ⟨[("volt", 1)], none⟩] (.add (.var 0) (.var 1)) tgt = .ok r) :
+    (∃ m u', traverse regMV [⟨[("mV", 1)], none⟩, ⟨[("volt", 1)], none⟩] r.e = .ok (m, u') ∧
+        isEquivalent regMV u' r.u = true) ∨
+    (∃ err, traverse regMV [⟨[("mV", 1)], none⟩, ⟨[("volt", 1)], none⟩] r.e = .error err ∧ magErr err = true) :=
+  convert_strict_partial (dimClass regMV regMV_dimsDistinct) (env_rootsDim (by decide +kernel))
+    (ex := .add (.var 0) (.var 1)) rfl (by simp [unitsIn]) ht h
+
 /-- clause (b) fails for `radian` in cellmlmanip itself (same root cause as the known finding of C07: `radian` is a
     root unit without a dimension, so it converts to `dimensionless` with factor one without being `is_equivalent`):
     `x [radian] + y [dimensionless]` is returned unchanged, in radian, and strict inference rejects it -/
@@ -579,9 +604,6 @@ theorem mulFixed_identical :
   decide +kernel
 
 /-! ## known finding `value-changed:floor-ceil`: `floor`/`ceiling` are not scale-covariant -/
-
-/-- registry with `mV = 10⁻³ volt` on top of the built-in units -/
-def regMV : Registry := ("mV", .derived (pow10 (-3)) [("volt", 1)]) :: builtinRegistry
 
 /-- `floor(x)` with `x = 1500 mV`, brought to volt: the conversion is pushed into the argument, `floor(10⁻³·x)` V = 1 V,
     whereas the original denotes `floor(1500)` mV = 1.5 V. (Pinned by tests/test_units.py::test_abs_ceil_floor.) -/
